@@ -23,6 +23,7 @@ struct St {
   // scripted raw peer
   int p_lfd = -1, p_cfd = -1, p_ufd = -1; int p_port = 0, lib_port = 0;
   // at most one pending peer action that can enable a waiting call
+  bool pend_fired = false;                     // the scheduled peer action has been carried out (its effect may already have been consumed)
   uint64_t pend_at = 0; int pend_kind = 0;     // 1 data for A/B stream, 2 connect to lib listener, 3 datagram to lib udp, 4 peer closes connection, 5 peer drains what we sent
   int peer_tasks = 0;
   bool small_bufs = false;
@@ -130,7 +131,9 @@ void waiting_call(LS &L, IoKind k, bool ready_now, int enabling_kind) {
   Model &m = L.m;
   if (m.closed) { io_call(L, k); return; }
   // a pending peer action enables the call only if it is still to come (a connect takes up to ~0.3 ms to complete after it was issued)
-  bool will_be_enabled = S->pend_kind == enabling_kind && S->pend_at > 0 && S->pend_at + (enabling_kind == 2 ? 300000ULL : 0ULL) >= now_ns();
+  // (an action that has already been carried out enables nothing any more - except a connect, which completes up to ~0.3 ms after it was issued)
+  bool will_be_enabled = S->pend_kind == enabling_kind && S->pend_at > 0 &&
+                         (!S->pend_fired || (enabling_kind == 2 && S->pend_at + 300000ULL >= now_ns()));
   bool explicit_wait = k == IO_WAIT_IN || k == IO_WAIT_OUT;
   if (!ready_now && (m.blocking || explicit_wait) && m.timeout == 0 && !will_be_enabled) return;    // would wait for ever: never generated
   uint64_t t0 = now_ns();
@@ -141,6 +144,7 @@ void waiting_call(LS &L, IoKind k, bool ready_now, int enabling_kind) {
     if (!r.ok && (r.code == P_ERROR_IO_WOULD_BLOCK || r.code == P_ERROR_IO_TIMED_OUT))
       violate("ready_call_did_not_proceed", io_name[k], "%s had something to do but failed with code %d", io_name[k], r.code);
     if (r.accepted) { S->b.s = r.accepted; }
+    if (r.ok && S->pend_kind == enabling_kind && S->pend_fired) { S->pend_at = 0; S->pend_kind = 0; S->pend_fired = false; }
     return;
   }
   if (!m.blocking && !explicit_wait) {
@@ -159,7 +163,7 @@ void waiting_call(LS &L, IoKind k, bool ready_now, int enabling_kind) {
     if (pend_at > t0 && r.dt + 1 < pend_at - t0) violate("blocking_call_returned_before_event", io_name[k], "%s returned after %llu ns, the enabling event came after %llu ns", io_name[k], (unsigned long long)r.dt, (unsigned long long)(pend_at - t0));
     probe("state.blocking_waited_for_peer");
     if (r.accepted) S->b.s = r.accepted;
-    S->pend_at = 0; S->pend_kind = 0;
+    S->pend_at = 0; S->pend_kind = 0; S->pend_fired = false;
     return;
   }
   // failure of a waiting call: must be a time-out, not before T, and not although the peer acted comfortably in time
@@ -175,7 +179,7 @@ void waiting_call(LS &L, IoKind k, bool ready_now, int enabling_kind) {
 void peer_action_after(int kind, uint64_t delay_us) {
   if (S->pend_kind) return;
   uint64_t at = now_ns() + delay_us * 1000;
-  S->pend_at = at; S->pend_kind = kind;
+  S->pend_at = at; S->pend_kind = kind; S->pend_fired = false;
   S->peer_tasks++;
   spawn(0, [kind, at]() {
     sleep_until(at);
@@ -188,6 +192,7 @@ void peer_action_after(int kind, uint64_t delay_us) {
     else if (kind == 3 && S->p_ufd >= 0) { mk_sockaddr(S->lib_port, &ss, &sl); simk_sendto(S->p_ufd, payload, 50, 0, (struct sockaddr *)&ss, sl); }
     else if (kind == 4 && S->p_cfd >= 0) { simk_shutdown(S->p_cfd, SHUT_RDWR); }
     else if (kind == 5 && S->p_cfd >= 0) { char sink[4096]; while (simk_recv(S->p_cfd, sink, sizeof sink, MSG_DONTWAIT) > 0) {} }
+    S->pend_fired = true;
     S->peer_tasks--;
   });
 }
